@@ -71,6 +71,22 @@ class Table:
         self.hints.append(t)
         return len(self.hints)
 
+    def structural(self):
+        """Global positions of signatures that are structural rules: some operator-typed parameter is a proper
+        operator kind (not the base LinearOperator, not Any)."""
+        import typing
+        out = set()
+        for gi, s in enumerate(self.sigs):
+            for t in s["sig"].types:
+                if isinstance(t, type) and issubclass(t, ops.LinearOperator) and t is not ops.LinearOperator:
+                    out.add(gi + 1)
+                elif typing.get_origin(t) is typing.Union or str(type(t)) == "<class 'types.UnionType'>":
+                    args = typing.get_args(t)
+                    if args and all(isinstance(a, type) and issubclass(a, ops.LinearOperator)
+                                    and a is not ops.LinearOperator for a in args):
+                        out.add(gi + 1)
+        return out
+
     def describe(self, gi):
         s = self.sigs[gi - 1]
         names = [getattr(self.hints[t - 1], "__name__", str(self.hints[t - 1])) for t in s["types"]]
@@ -293,6 +309,7 @@ class Lattice:
         lines = ["---- MODULE RuleTable ----", "EXTENDS Integers, Sequences"]
         lines.append("RT_Sigs == " + tla.to_tla(sigs))
         lines.append("RT_LEPairs == {" + ", ".join(f"<<{a}, {b}>>" for a, b in sorted(t.le)) + "}")
+        lines.append("RT_Structural == {" + ", ".join(str(i) for i in sorted(t.structural())) + "}")
         samp = []
         for r in self.recs:
             samp.append("[name |-> %s, inst |-> {%s}, condtrue |-> {%s}]" % (
